@@ -537,6 +537,51 @@ fn scenario<H: ArchH>(rep: &mut Report, p: &mut Prng, arch: Arch, id: u64) {
     op!(Op::NewCache { c: "c1".into() });
     op!(Op::Mod { m: "m0".into(), spec: m.clone() });
     op!(Op::Add { u: "u0".into(), m: "m0".into() });
+    // ------------------------------------------------------------ a second dylib
+    // Ordinary dylibs all state the same base address (0; main executables 0x100000000): some
+    // scenarios load another image with the same stated base at a different place, with one
+    // entry spanning the same relative range as m0's text but a different opcode, and look an
+    // address up in it right before lookups in m0 - whatever a lookup in one image leaves
+    // behind must not answer a lookup in the other
+    let decoy_base: Option<u64> = if p.chance(1, 3) {
+        let cands: Vec<u64> = [0x2_0000_0000u64, 0x7fff_4000_0000, 0x1_2000_0000].iter().copied().filter(|b| *b != base_avma && (arch == Arch::X64 || mask == u64::MAX || *b < (1u64 << 40))).collect();
+        Some(*p.pick(&cands))
+    } else {
+        None
+    };
+    if let Some(db) = decoy_base {
+        let op_d = match (arch, p.below(3)) {
+            (Arch::X64, 0) => 0x0100_0000u32,
+            (Arch::X64, _) => 0x0200_0000 | ((1 + p.below(12) as u32) << 16),
+            (Arch::A64, 0) => 0x0400_0000,
+            (Arch::A64, _) => 0x0200_0000 | ((1 + p.below(12) as u32) << 12),
+        };
+        let dspec = MachoSpec {
+            entries: vec![(text_off as u32, op_d), (text_end + 0x100, 0)],
+            stubs: None,
+            stub_helper: None,
+            text: None,
+            eh: None,
+            compressed_pages: p.chance(1, 2),
+            entries_per_page: 1 + p.below(4) as usize,
+            text_as_segment: false,
+            eh_offsets: Vec::new(),
+        };
+        let md = ModSpec {
+            start: db + text_off,
+            end: db + text_end as u64 + 0x100,
+            base_avma: db,
+            base_svma,
+            data: DataSpec::Macho(dspec),
+            enc: PtrEnc::Abs8,
+            hdr_abs: true,
+            dbg_version: 4,
+            n_cies: 1,
+        };
+        op!(Op::Mod { m: "md".into(), spec: md });
+        op!(Op::Add { u: "u0".into(), m: "md".into() });
+        rep.count(&format!("{} macho scenarios with a second image at the same stated base", arch.name()));
+    }
     // ------------------------------------------------------------ the same module elsewhere
     // (C08: mapped range and base address moved together, stated addresses unchanged, stack
     // placed elsewhere - frames must differ by exactly the shifts)
@@ -579,6 +624,11 @@ fn scenario<H: ArchH>(rep: &mut Report, p: &mut Prng, arch: Arch, id: u64) {
             want.push(format!("ra:{}", hex(fr.addr & mask)));
         }
         want.push("none".into());
+        if let Some(db) = decoy_base {
+            let a = db + text_off + 1 + g.below((text_end as u64 - text_off).max(2) - 1);
+            let r = regs_for(arch, mask, a, &truth.frames[0].mach, false);
+            op!(Op::Unwind { u: "u0".into(), c: "c0".into(), is_ra: true, addr: a, regs: r, mem: mem.clone() });
+        }
         let ans = op!(Op::Iter { u: "u0".into(), c: "c0".into(), pc, regs: regs0, mem: mem.clone(), extra: 0, max: 64 });
         rep.count(&format!("{} macho ground-truth walks", arch.name()));
         let got = ans.split(' ').next().unwrap_or("").trim_start_matches("items=").to_string();
@@ -639,6 +689,13 @@ fn scenario<H: ArchH>(rep: &mut Report, p: &mut Prng, arch: Arch, id: u64) {
         for i in 0..truth.frames.len() {
             let fr = &truth.frames[i];
             let before = regs_for(arch, mask, fr.addr & mask, &fr.mach, i == 0);
+            if let Some(db) = decoy_base {
+                if g.chance(1, 2) {
+                    let a = db + text_off + 1 + g.below((text_end as u64 - text_off).max(2) - 1);
+                    let r = regs_for(arch, mask, a, &fr.mach, false);
+                    op!(Op::Unwind { u: "u0".into(), c: "c1".into(), is_ra: true, addr: a, regs: r, mem: mem.clone() });
+                }
+            }
             let ans = op!(Op::Unwind { u: "u0".into(), c: "c1".into(), is_ra: i > 0, addr: fr.addr & mask, regs: before, mem: mem.clone() });
             if i + 1 < truth.frames.len() {
                 let nx = &truth.frames[i + 1];
@@ -647,11 +704,14 @@ fn scenario<H: ArchH>(rep: &mut Report, p: &mut Prng, arch: Arch, id: u64) {
                     // a return address that is the first byte of the next function / of __stubs
                     // must still be looked up in the function that made the call (C13)
                     let rel = (fr.addr & mask).wrapping_sub(base_avma);
-                    let at_boundary = i > 0 && (mspec.entries.iter().any(|e| e.0 as u64 == rel) || rel == stubs.0 as u64 || rel == helper.0 as u64);
+                    // (a function hit by the recorded limitation F26 fails this step wherever its
+                    // return address lies: that is F26, not a boundary lookup problem)
+                    let beyond = arch == Arch::X64 && funcs[chain[chain.len() - 1 - i].0].x64_rbp_slot_beyond_rule_field();
+                    let at_boundary = !beyond && i > 0 && (mspec.entries.iter().any(|e| e.0 as u64 == rel) || rel == stubs.0 as u64 || rel == helper.0 as u64);
                     rep.add_finding(Finding {
                         props: if at_boundary { vec!["C02".into(), "C13".into()] } else { vec!["C02".into()] },
                         kind: "oracle".into(),
-                        key: if at_boundary { format!("macho-{}-return-address-at-boundary-unwound-with-the-wrong-function", arch.name()) } else { format!("macho-{}-step-differs-from-true-caller-state{}", arch.name(), if arch == Arch::X64 && funcs[chain[chain.len() - 1 - i].0].x64_rbp_slot_beyond_rule_field() { "-rbp-slot-beyond-i16-rule-field" } else { "" }) },
+                        key: if at_boundary { format!("macho-{}-return-address-at-boundary-unwound-with-the-wrong-function", arch.name()) } else { format!("macho-{}-step-differs-from-true-caller-state{}", arch.name(), if beyond { "-rbp-slot-beyond-i16-rule-field" } else { "" }) },
                         what: format!("the caller is at {:#x} with sp={:#x} fp={:#x}", nx.addr & mask, nx.mach.sp, nx.mach.fp),
                         case: lines.join("\n"),
                         impl_out: ans.clone(),
@@ -980,7 +1040,8 @@ fn random_history<H: ArchH>(rep: &mut Report, p: &mut Prng, arch: Arch, id: u64)
         let addr = if is_ra { la.wrapping_add(1) } else { la };
         let regs = crate::gen::gen_regs(p, arch, addr);
         let mem = crate::gen::gen_mem(p, &regs);
-        if with_iter && p.chance(1, 6) {
+        // (a walk looks its pc up as an instruction pointer, whatever `is_ra` says)
+        if with_iter && p.chance(1, 6) && !*kind.entry(addr).or_insert(false) {
             run_op(&mut w, rep, Op::Iter { u: "u0".into(), c: "c0".into(), pc: addr, regs, mem, extra: 0, max: 12 });
         } else {
             run_op(&mut w, rep, Op::Unwind { u: "u0".into(), c: "c0".into(), is_ra, addr, regs, mem });
